@@ -169,7 +169,7 @@ func TestVerifC38Groups(t *testing.T) {
 	gidStr := []string{gids[0].String(), gids[1].String()}
 	peerStr := []string{peers[0].String(), peers[1].String(), peers[2].String()}
 
-	mc.Run(t, mc.Config{ID: "C38", Name: "C38-groups-opseq", MaxDev: -1, ShardLevels: mc.EnvInt("VERIF_C38_SHARDLEVELS", 1), Params: map[string]interface{}{
+	mc.Run(t, mc.Config{ID: "C38", Name: "C38-groups-opseq", MaxDev: -1, ShardLevels: mc.EnvInt("VERIF_C38_SHARDLEVELS", 2), Params: map[string]interface{}{
 		"depth": depth, "peers": peerNames, "groups": "G (joined), H (known)",
 		"alphabet": "add(G,p,keep) x6 | remove(G,p,intoKnown) x6 | fill(G: add 22 further known peers) | pruneKnown(G) | updatePeerGroupsJoin(p, {[],[G],[H],[G,H]}) x12 | flipNeighbour(p) x3 | disconnectEffect(p) x3",
 		"max_known": maxKnownPeers, "fill": nFill}},
